@@ -414,7 +414,10 @@ def coreStep (st : CoreSt) (j : Json) : Except String (CoreSt × String) := do
       -- (a completed application's id can be submitted again: the record of the old one is not the new application)
       if a.state != "Completed" || post.liveApps.any (fun l => l.id == a.id && l.state != "Completed") then none else
       (v2.asks.find? (fun k => k.2 == a.id && !v2.releasing.contains k.1)).map (fun k =>
-        s!"C10.completed-with-outstanding-ask {a.id} {k.1}")))
+        -- (known class C06 …+placeholder-released-by-rm: the real half of a swap whose placeholder the RM released stays
+        --  allocated-but-unbound for good; the application completes around it)
+        if phGone.contains k.1 then s!"C10.completed-with-outstanding-ask+placeholder-released-by-rm {a.id} {k.1}"
+        else s!"C10.completed-with-outstanding-ask {a.id} {k.1}")))
   let st' : CoreSt := { st' with lostInflight := lost, lostTimeout := lostT, swapRolledBack := rolled, phGoneByRM := phGone, everBound := everBound }
   let fails := fails.map (fun f =>
       if f.startsWith "C06.inflight-real-without-placeholder " && phGone.contains (keyOf f) then
